@@ -1,10 +1,9 @@
 """C03 - a disable comment silences exactly that error.
 
-Decides: own-line registration, single writer + filter on the error log,
-filter semantics, per-line over range precedence, no directive lost while line
-ranges merge, directive syntax, and that a trailing directive registers only
-its own line (D16 = known finding).  Does NOT decide which line the VM
-attributes an error to.
+Decides: own-line registration, single writer + filter on the error log, filter
+semantics, per-line over range precedence, no directive lost while line ranges
+merge, directive syntax, and that a trailing directive registers only its own
+line (D16 = known finding).  Does NOT decide which line the VM blames.
 """
 import ast
 import itertools
@@ -18,63 +17,50 @@ from sa.pyindex import (get_module, dotted, src, calls_in, fold, Unfoldable,
 from sa import flow
 
 EXPLANATION = (
-    "Static necessary conditions for 'a disable comment silences exactly that "
-    "error', on the AST of directors/directors.py, directors/parser.py, "
-    "errors/errors.py and vm.py: R3.1 on every path a trailing directive "
-    "registers the comment's own line on the line set of the named error with "
-    "the stated polarity (an open-ended one starts a range there), and reaching "
-    "that code does not depend on the position; R3.2 ErrorLog._add is the only "
-    "writer of ErrorLog._errors, the append is control-dependent on the filter, "
-    "CheckPoint only truncates, every Error built in the log classes flows into "
-    "_add, and run_program installs director.filter_error before run_bytecode; "
-    "R3.3 filter_error returns true iff the line is in none of _ignore, "
-    "_disables['*'], _disables[error.name] (truth-table comparison); R3.4 a "
-    "per-line entry wins over the range list and set_line stores the polarity; "
-    "R3.5 every raw structured comment seeds a base LineRange group, merged "
-    "groups are extended before they are deleted, base ranges are never "
-    "skipped, every comment of every group is dispatched; R3.6 regex ASTs of "
-    "_DIRECTIVE_RE / IGNORE_RE and the disable/enable wiring; R3.7 a trailing "
-    "directive registers only its own line (violated by design today: D16). "
-    "Not decided: which line the VM attributes an error to, the semantics of "
-    "the line adjustment tables, the tokenizer.")
+    "Static necessary conditions for 'a disable comment silences exactly that error' on the AST of "
+    "directors/directors.py, directors/parser.py, errors/errors.py, vm.py: R3.1 every path of a trailing "
+    "directive registers the comment's own line on the named error's line set with the stated polarity "
+    "(open-ended: starts a range there), independent of position; R3.2 ErrorLog._add is the only writer of "
+    "_errors, behind the filter; CheckPoint only truncates; every Error built in the log classes reaches "
+    "_add; run_program installs director.filter_error before run_bytecode; R3.3 filter_error is true iff "
+    "the line is in none of _ignore, _disables['*'], _disables[error.name] (truth table); R3.4 per-line "
+    "entries win over ranges; R3.5 every raw comment seeds a base LineRange group, groups are extended "
+    "before deletion, base ranges are never skipped, every comment is dispatched; R3.6 regex ASTs of "
+    "_DIRECTIVE_RE / IGNORE_RE and the disable/enable wiring; R3.7 a trailing directive registers only its "
+    "own line (violated by design: D16).  Not decided: which line the VM attributes an error to, the "
+    "line-adjustment tables, the tokenizer.")
 ASSUMPTIONS = [
-    "the VM reports an error through ctx.errorlog (VmErrorLog) with the line "
-    "CPython's line table gives the opcode; line attribution is out of scope",
-    "_LineSet.set_line is only ever given bool memberships (so `is not None` "
-    "separates 'entry present' from 'no entry')",
-    "python semantics of re.match/finditer and collections.OrderedDict; the "
-    "tokenize module delivers every comment token",
+    "the VM reports errors through ctx.errorlog (VmErrorLog) at the line CPython's line table gives "
+    "the opcode; line attribution is out of scope",
+    "_LineSet.set_line is only given bool memberships (so `is not None` means 'entry present')",
+    "Python semantics of re.match/finditer and OrderedDict; tokenize delivers every comment token",
 ]
 
 DIR = "pytype/directors/directors.py"
 PAR = "pytype/directors/parser.py"
 ERR = "pytype/errors/errors.py"
 VM = "pytype/vm.py"
-_REG = ("set_line", "start_range")
-_POSITIONAL = {"line", "line_range", "open_ended", "disable", "final_line"}
 GROUPS = "self.structured_comment_groups"
+_PROCS = ("Director._process_disable", "Director._process_type")
+_POSITIONAL = {"line", "line_range", "open_ended", "disable", "final_line"}
 
 
-# -- small helpers ------------------------------------------------------------
+# -- helpers ----------------------------------------------------------------------
 
 def _stored(node):
-  return {n.id for n in ast.walk(node) if isinstance(n, ast.Name)
-          and isinstance(n.ctx, (ast.Store, ast.Del))}
+  return {n.id for n in ast.walk(node) if isinstance(n, ast.Name) and not isinstance(n.ctx, ast.Load)}
 
 
 def _params(fn):
-  a = fn.args
-  return [x.arg for x in a.posonlyargs + a.args + a.kwonlyargs]
+  return [x.arg for x in fn.args.posonlyargs + fn.args.args + fn.args.kwonlyargs]
 
 
 def _single_def(fn, name):
-  """Value of the only binding of local `name` (None: never bound in fn)."""
-  vals, stores = [], 0
-  for n in walk_no_nested(fn):
-    if isinstance(n, ast.Name) and n.id == name and not isinstance(n.ctx, ast.Load):
-      stores += 1
-    if isinstance(n, ast.Assign) and any(dotted(t) == name for t in n.targets):
-      vals.append(n.value)
+  """Value of the only binding of local `name` in fn (None: never bound there)."""
+  vals = [n.value for n in walk_no_nested(fn) if isinstance(n, ast.Assign)
+          and any(dotted(t) == name for t in n.targets)]
+  stores = sum(1 for n in walk_no_nested(fn) if isinstance(n, ast.Name) and n.id == name
+               and not isinstance(n.ctx, ast.Load))
   if stores == 0:
     return None
   if stores != 1 or len(vals) != 1:
@@ -92,16 +78,12 @@ def _resolve(fn, node):
 
 
 def _bind(call, fn):
-  """Parameter name -> argument node (self/cls dropped)."""
-  names = [a.arg for a in fn.args.posonlyargs + fn.args.args]
-  if names and names[0] in ("self", "cls"):
-    names = names[1:]
+  """Parameter name -> argument source (self dropped)."""
+  names = [a.arg for a in fn.args.posonlyargs + fn.args.args][1:]
   if any(isinstance(a, ast.Starred) for a in call.args) or len(call.args) > len(names) \
       or any(k.arg is None for k in call.keywords):
     raise AnalysisError(f"cannot bind arguments of {src(call)}")
-  out = dict(zip(names, call.args))
-  out.update({k.arg: k.value for k in call.keywords})
-  return out
+  return {**{n: src(a) for n, a in zip(names, call.args)}, **{k.arg: src(k.value) for k in call.keywords}}
 
 
 def _qual(mod, node):
@@ -113,23 +95,16 @@ def _qual(mod, node):
   return ".".join(reversed(parts)) or "<module>"
 
 
-def _gtxt(mod, node, fn):
-  return [(src(t), p) for t, p in flow.guards(mod.parent, mod.enclosing_stmt(node))]
+def _guards(mod, node):
+  # no stop=: flow.guards(stop=fn) would drop the early exits of the function's own body
+  return flow.guards(mod.parent, mod.enclosing_stmt(node))
 
 
-def try_const(mod, name):
-  try:
-    return fold(mod.const(name), mod=mod)
-  except Unfoldable:
-    return None
+_gtxt = lambda mod, node: [(src(t), p) for t, p in _guards(mod, node)]
 
 
 def _returns(fn):
   return [n for n in walk_no_nested(fn) if isinstance(n, ast.Return)]
-
-
-_SIMPLE = (ast.Expr, ast.Assign, ast.AnnAssign, ast.AugAssign, ast.Pass,
-           ast.Assert, ast.Delete)
 
 
 def _paths(block, acc=()):
@@ -147,30 +122,19 @@ def _paths(block, acc=()):
           yield ev, how
   elif isinstance(st, (ast.Return, ast.Raise, ast.Continue, ast.Break)):
     yield acc + (("stmt", st),), type(st).__name__.lower()
-  elif isinstance(st, _SIMPLE):
+  elif isinstance(st, (ast.Expr, ast.Assign, ast.AnnAssign, ast.AugAssign, ast.Pass, ast.Assert)):
     yield from _paths(rest, acc + (("stmt", st),))
   else:
     raise AnalysisError(f"path enumeration: unsupported {type(st).__name__}")
 
 
-def _eq_test(test, pol, a, b):
-  """Does `test` with polarity `pol` establish a == b (two local names)?"""
+def _eq_test(test, pol, name):
+  """Does `test` with polarity `pol` establish <name> == line?"""
   while isinstance(test, ast.UnaryOp) and isinstance(test.op, ast.Not):
     test, pol = test.operand, not pol
-  return (isinstance(test, ast.Compare) and len(test.ops) == 1
-          and isinstance(test.ops[0], (ast.Eq, ast.NotEq))
-          and {dotted(test.left), dotted(test.comparators[0])} == {a, b} and a != b
-          and isinstance(test.ops[0], ast.Eq) == pol)
-
-
-def _path_equal(events, upto, name):
-  ok = False
-  for ev in events[:upto]:
-    if ev[0] == "cond":
-      ok = ok or _eq_test(ev[1], ev[2], name, "line")
-    elif name in _stored(ev[1]):
-      ok = False
-  return ok
+  return (isinstance(test, ast.Compare) and len(test.ops) == 1 and name != "line"
+          and isinstance(test.ops[0], (ast.Eq, ast.NotEq)) and isinstance(test.ops[0], ast.Eq) == pol
+          and {dotted(test.left), dotted(test.comparators[0])} == {name, "line"})
 
 
 def _reg_args(ctx, call):
@@ -180,54 +144,55 @@ def _reg_args(ctx, call):
   return b["line"], b["membership"]
 
 
+def _is_reg(c, meths=("set_line", "start_range")):
+  return isinstance(c.func, ast.Attribute) and c.func.attr in meths
+
+
 def _registers(ctx, fn, events, meth, recv, memb):
-  """Does this path call <recv>.<meth>(line, <memb>)?"""
-  for i, ev in enumerate(events):
-    if ev[0] != "stmt":
+  """Does this path call <recv>.<meth>(line, <memb>) (line: directly or by path condition)?"""
+  equal = set()   # locals the path condition has established to equal `line`
+  for ev in events:
+    if ev[0] == "cond":
+      equal |= {n for n in flow.names_in(ev[1]) if _eq_test(ev[1], ev[2], n)}
       continue
     for c in flow.unconditional_calls(ev[1]):
-      if not (isinstance(c.func, ast.Attribute) and c.func.attr == meth):
-        continue
-      a, m = _reg_args(ctx, c)
-      if _resolve(fn, c.func.value) == recv and src(m) == memb and isinstance(a, ast.Name) \
-          and (a.id == "line" or _path_equal(events, i, a.id)):
-        return True
+      if _is_reg(c, (meth,)) and _resolve(fn, c.func.value) == recv:
+        a, m = _reg_args(ctx, c)
+        if m == memb and (a == "line" or a in equal):
+          return True
+    equal -= _stored(ev[1])
   return False
 
 
 def _arms(mod, qual):
-  """(fn, if-stmt, open-ended arm, trailing arm, expected receiver, membership)."""
+  """(fn, if-stmt, open-ended arm, trailing arm, expected receiver, membership, loop var)."""
   fn = mod.func(qual)
   if not {"line", "open_ended"} <= set(_params(fn)) or {"line", "open_ended"} & _stored(fn):
     raise AnalysisError(f"{qual}: parameters line/open_ended missing or rebound")
-  ifs = [n for n in walk_no_nested(fn) if isinstance(n, ast.If)
-         and "open_ended" in flow.names_in(n.test)]
+  ifs = [n for n in walk_no_nested(fn) if isinstance(n, ast.If) and "open_ended" in flow.names_in(n.test)]
   if len(ifs) != 1 or src(ifs[0].test) not in ("open_ended", "not open_ended"):
     raise AnalysisError(f"{qual}: expected one `if open_ended` split")
   st = ifs[0]
   arms = (st.body, st.orelse) if src(st.test) == "open_ended" else (st.orelse, st.body)
-  if qual.endswith("_process_disable"):
-    loop = st
-    while loop is not fn and not isinstance(loop, ast.For):
-      loop = mod.parent[loop]
-    if not (isinstance(loop, ast.For) and isinstance(loop.target, ast.Name)
-            and src(loop.iter) in ("values", "sorted(values)", "list(values)")):
-      raise AnalysisError(f"{qual}: the split is not inside `for <name> in values`")
-    return fn, st, arms[0], arms[1], f"self._disables[{loop.target.id}]", "disable", loop.target.id
-  return fn, st, arms[0], arms[1], "self._ignore", "True", None
+  if not qual.endswith("_process_disable"):
+    return fn, st, arms[0], arms[1], "self._ignore", "True", None
+  loop = st
+  while loop is not fn and not isinstance(loop, ast.For):
+    loop = mod.parent[loop]
+  if not (isinstance(loop, ast.For) and isinstance(loop.target, ast.Name)
+          and src(loop.iter) in ("values", "sorted(values)", "list(values)")):
+    raise AnalysisError(f"{qual}: the split is not inside `for <name> in values`")
+  return fn, st, arms[0], arms[1], f"self._disables[{loop.target.id}]", "disable", loop.target.id
 
 
-_PROCS = ("Director._process_disable", "Director._process_type")
-
-
-# -- R3.1 -----------------------------------------------------------------------
+# -- R3.1 ---------------------------------------------------------------------------
 
 @rule("R3.1", "C03", floor=6)
 def r3_1(ctx):
   """The comment's own line is always registered."""
   mod = get_module(ctx, DIR)
   for qual in _PROCS:
-    fn, st, open_arm, trail, recv, memb, loopvar = _arms(mod, qual)
+    fn, st, open_arm, trail, recv, memb, lv = _arms(mod, qual)
     for arm, meth, tag in ((trail, "set_line", "own-line"), (open_arm, "start_range", "open-ended-range")):
       todo = [ev for ev, how in _paths(arm) if how != "raise"]
       missing = [[src(e[1]) for e in ev if e[0] == "cond"] for ev in todo
@@ -236,39 +201,31 @@ def r3_1(ctx):
                 f"a path through the {tag} arm (conditions {missing[:1]}) does not call "
                 f"{recv}.{meth}(line, {memb})", {"paths": len(todo), "receiver": recv})
     # reaching the split must not depend on where the comment is
-    flag = None
-    if loopvar is None:
-      cand = [n for n in flow.names_in(mod.parent[st].test)] if isinstance(mod.parent[st], ast.If) else []
-      flag = cand[0] if len(cand) == 1 else None
-      v = _single_def(fn, flag) if flag else None
-      if v is None or "IGNORE_RE" not in src(v):
+    if lv is None:
+      outer = mod.parent[st]
+      flag = src(outer.test) if isinstance(outer, ast.If) and isinstance(outer.test, ast.Name) else None
+      if not flag or "IGNORE_RE" not in src(_single_def(fn, flag) or ast.Name("?")):
         raise AnalysisError(f"{qual}: the ignore flag guarding the split was not found")
+      fine = lambda t, p: (p and src(t) == flag) or (not p and f"not {flag}" in (
+          [src(v) for v in t.values] if isinstance(t, ast.BoolOp) and isinstance(t.op, ast.And) else [src(t)]))
+    else:
+      valid = {f"{lv} == _ALL_ERRORS", f"self._errorlog.is_valid_error_name({lv})"}
+      fine = lambda t, p: (src(t), p) in (("not values", False), ("values", True), (f"keep({lv})", True),
+                                          (f"not keep({lv})", False)) or (
+          p and isinstance(t, ast.BoolOp) and isinstance(t.op, ast.Or) and {src(v) for v in t.values} == valid)
     wrong = []
-    for t, p in flow.guards(mod.parent, st):
-      if flag and ((p and src(t) == flag) or (not p and (src(t) == f"not {flag}" or (
-          isinstance(t, ast.BoolOp) and isinstance(t.op, ast.And)
-          and f"not {flag}" in [src(v) for v in t.values])))):
+    for t, p in _guards(mod, st):
+      if fine(t, p):
         continue
-      names = flow.names_in(t)
-      if not flag and names <= {loopvar, "values", "keep", "self", "_ALL_ERRORS"}:
-        continue
-      if names & _POSITIONAL or flag:
-        wrong.append((src(t), p))
-      else:
+      if not (flow.names_in(t) & _POSITIONAL or lv is None):
         raise AnalysisError(f"{qual}: unrecognised guard {src(t)}")
+      wrong.append((src(t), p))
     ctx.check(not wrong, f"{qual}:arm-guards", DIR, st.lineno,
-              f"registration is conditional on {wrong}: a directive at some "
-              "position is silently not registered", {"guards": _gtxt(mod, st, fn)})
+              f"registration is conditional on {wrong}: a directive at some position is not registered",
+              {"guards": _gtxt(mod, st)})
 
 
-# -- R3.7 -----------------------------------------------------------------------
-
-def _canon(fn, node):
-  s = _resolve(fn, node) if isinstance(node, ast.Name) and node.id != "line" else src(node)
-  if s == "line_range.start_line" or s.startswith("self._adjust_line_number_for_pytype_directive("):
-    return "final_line"   # the range start line (D16 mechanism), whatever the local is called
-  return src(node)
-
+# -- R3.7 ---------------------------------------------------------------------------
 
 @rule("R3.7", "C03", floor=7)
 def r3_7(ctx):
@@ -279,58 +236,54 @@ def r3_7(ctx):
   ctx.check(set(rets) <= {"line", "line_range.start_line"} and _params(adj)[1:2] == ["line"]
             and "line_range" in _params(adj) and flow.terminates(adj.body),
             "Director._adjust_line_number_for_pytype_directive:returns", DIR, adj.lineno,
-            f"returns {rets}; only the own line or the range start line are expected",
-            {"returns": rets})
+            f"returns {rets}; only the own line or the range start line are expected", {"returns": rets})
   for qual in _PROCS:
-    fn, st, open_arm, trail, recv, memb, _ = _arms(mod, qual)
+    fn, st, open_arm, _, recv, memb, _ = _arms(mod, qual)
     opens = {id(n) for s in open_arm for n in ast.walk(s)}
     for c in calls_in(fn):
-      if not (isinstance(c.func, ast.Attribute) and c.func.attr in _REG):
+      if not _is_reg(c):
         continue
       a, m = _reg_args(ctx, c)
       got = _resolve(fn, c.func.value)
-      name = f"{qual}:{c.func.attr}({_canon(fn, a)})" + ("" if got == recv else f"@{got}")
-      g = flow.guards(mod.parent, mod.enclosing_stmt(c))
-      own = isinstance(a, ast.Name) and (a.id == "line" or any(
-          _eq_test(t, p, a.id, "line") for t, p in g))
+      full = _resolve(fn, ast.Name(id=a)) if a.isidentifier() and a != "line" else a
+      # the range start line (the D16 mechanism) is called final_line whatever the local's name
+      canon = "final_line" if full == "line_range.start_line" or full.startswith(
+          "self._adjust_line_number_for_pytype_directive(") else a
       why = []
       if got != recv:
         why.append(f"writes line set {got}, expected {recv}")
-      if src(m) != memb:
-        why.append(f"membership {src(m)}, expected {memb}")
-      if not own:
-        why.append(f"registers line `{src(a)}`, which is not the comment's own line")
+      if m != memb:
+        why.append(f"membership {m}, expected {memb}")
+      if not (a == "line" or any(_eq_test(t, p, a) for t, p in _guards(mod, c))):
+        why.append(f"registers line `{a}`, which is not the comment's own line")
       if c.func.attr == "start_range" and id(c) not in opens:
         why.append("starts a range for a trailing (not open-ended) directive")
-      ctx.check(not why, name, DIR, c.lineno, "; ".join(why),
-                {"receiver": got, "line": src(a), "membership": src(m)})
+      ctx.check(not why, f"{qual}:{c.func.attr}({canon})" + ("" if got == recv else f"@{got}"), DIR,
+                c.lineno, "; ".join(why), {"receiver": got, "line": a, "membership": m})
 
 
-# -- R3.2 -----------------------------------------------------------------------
+# -- R3.2 ---------------------------------------------------------------------------
 
 _MUT = {"append", "extend", "insert", "remove", "pop", "clear", "sort", "reverse",
         "__setitem__", "__delitem__", "__iadd__", "__imul__"}
-_READERS = {"len", "iter", "sorted", "any", "all", "list", "tuple", "enumerate",
-            "reversed", "bool", "sum"}
+_READERS = {"len", "iter", "sorted", "any", "all", "list", "tuple", "enumerate", "reversed", "bool", "sum"}
 
 
 def _uses(mod, attr):
-  """Classifies every `<x>.<attr>` occurrence: read / rebind / mutate:* / escape."""
+  """Classifies every `<x>.<attr>` occurrence: (read|rebind|mutate:*|escape, function, node)."""
   out = []
   for n in ast.walk(mod.tree):
     if not (isinstance(n, ast.Attribute) and n.attr == attr):
       continue
     p = mod.parent[n]
-    gp = mod.parent.get(p)
     if not isinstance(n.ctx, ast.Load):
       kind = "rebind"
-    elif isinstance(p, ast.Attribute) and isinstance(gp, ast.Call) and gp.func is p:
+    elif isinstance(p, ast.Attribute) and getattr(mod.parent.get(p), "func", None) is p:
       kind = "mutate:" + p.attr if p.attr in _MUT else "read"
     elif isinstance(p, ast.Subscript) and p.value is n:
       kind = "read" if isinstance(p.ctx, ast.Load) else "mutate:setitem"
-    elif isinstance(p, ast.Call) and n in p.args and dotted(p.func) in _READERS:
-      kind = "read"
-    elif isinstance(p, (ast.For, ast.comprehension)) and p.iter is n:
+    elif (isinstance(p, ast.Call) and n in p.args and dotted(p.func) in _READERS) or (
+        isinstance(p, (ast.For, ast.comprehension)) and p.iter is n):
       kind = "read"
     else:
       kind = "escape"
@@ -338,167 +291,134 @@ def _uses(mod, attr):
   return out
 
 
-def _writers(uses):
-  return sorted({(q, k) for k, q, _ in uses if k not in ("read", "escape")})
+def _writers(mod, uses):
+  """(function, kind, assigned value) of every non-read, non-escape use."""
+  return sorted((q, k, src(mod.parent[n].value) if isinstance(mod.parent[n], ast.Assign) else "")
+                for k, q, n in uses if k not in ("read", "escape"))
 
 
 def _filter_test(t, err):
   """Is `t` true only if the filter is absent or accepted `err`?"""
   call, none = f"self._filter({err})", ("self._filter is None", "not self._filter")
-  if isinstance(t, ast.BoolOp) and isinstance(t.op, ast.Or):
-    ops = [src(v) for v in t.values]
-    return call in ops and all(o == call or o in none for o in ops)
   if isinstance(t, ast.BoolOp):
+    ops = [src(v) for v in t.values]
+    if isinstance(t.op, ast.Or):
+      return call in ops and all(o == call or o in none for o in ops)
     return any(_filter_test(v, err) for v in t.values)
   return src(t) == call
 
 
-@rule("R3.2", "C03", floor=15)
+@rule("R3.2", "C03", floor=13)
 def r3_2(ctx):
   """Single writer of the error list, behind the filter; the filter is installed."""
   mod = get_module(ctx, ERR)
   uses = _uses(mod, "_errors")
-  init = [src(mod.parent[n].value) for k, q, n in uses if k == "rebind"
-          and isinstance(mod.parent[n], ast.Assign)]
-  w = _writers(uses)
-  ctx.check(w == [("ErrorLog.__init__", "rebind"), ("ErrorLog._add", "mutate:append")]
-            and init == ["[]"], "ErrorLog._errors:writers", ERR, 0,
-            f"writers of _errors are {w} (initial value {init}); only ErrorLog._add "
-            "may append", {"writers": w})
-  esc = [(q, src(mod.parent[n]), mod.parent[n], n) for k, q, n in uses if k == "escape"]
-  bad = [e[:2] for e in esc if not (isinstance(e[2], ast.Call) and dotted(e[2].func) == "CheckPoint"
-                                    and e[2].args[:1] == [e[3]])]
-  ctx.check(not bad, "ErrorLog._errors:escapes", ERR, 0,
-            f"the error list escapes to {bad}; only CheckPoint(self._errors) is understood",
-            {"escapes": [e[:2] for e in esc]})
+  w = _writers(mod, uses)
+  ctx.check(w == [("ErrorLog.__init__", "rebind", "[]"), ("ErrorLog._add", "mutate:append", "")],
+            "ErrorLog._errors:writers", ERR, 0, f"writers of _errors are {w}; only ErrorLog._add may append",
+            {"writers": w})
+  # the list escapes only into CheckPoint, which may only cut it back to the recorded length
+  esc = [(q, src(mod.parent[n])) for k, q, n in uses if k == "escape"]
   cp = _uses(mod, "_errorlog_errors")
-  w = _writers(cp)
+  cw = _writers(mod, cp)
   trunc = [mod.parent[mod.parent[n]] for k, q, n in cp if k == "mutate:setitem"]
-  pos = [src(mod.parent[n].value) for k, q, n in _uses(mod, "_position") if k == "rebind"
-         and isinstance(mod.parent[n], ast.Assign)]
+  pos = _writers(mod, _uses(mod, "_position"))
   cinit = mod.func("CheckPoint.__init__")
-  ok = (w == [("CheckPoint.__init__", "rebind"), ("CheckPoint.revert", "mutate:setitem")]
-        and not [1 for k, _, _ in cp if k == "escape"] and len(trunc) == 1
-        and isinstance(trunc[0], ast.Assign)
+  prm = _params(cinit)[1]
+  ok = (esc == [("ErrorLog.checkpoint", "CheckPoint(self._errors)")] and not [1 for k, _, _ in cp if k == "escape"]
+        and cw == [("CheckPoint.__init__", "rebind", prm), ("CheckPoint.revert", "mutate:setitem", "")]
+        and len(trunc) == 1 and isinstance(trunc[0], ast.Assign)
         and src(trunc[0].targets[0]) == "self._errorlog_errors[:]"
         and src(trunc[0].value) == "self._errorlog_errors[:self._position]"
-        and pos == [f"len({_params(cinit)[1]})"])
+        and pos == [("CheckPoint.__init__", "rebind", f"len({prm})")])
   ctx.check(ok, "CheckPoint:truncate-only", ERR, cinit.lineno,
-            f"CheckPoint writes {w}, {[src(t) for t in trunc]}, _position={pos}; it may "
-            "only cut the list back to the recorded length", {"writers": w, "position": pos})
+            f"_errors escapes to {esc}; CheckPoint writes {cw} / {[src(t) for t in trunc]}, _position={pos}; "
+            "it may only cut the list back to the recorded length", {"escapes": esc, "writers": cw})
   # _add: append(error) is control-dependent on the filter accepting error
   add = mod.func("ErrorLog._add")
   err = _params(add)[1]
   apps = [c for c in calls_in(add) if dotted(c.func) == "self._errors.append"]
-  g = [flow.guards(mod.parent, mod.enclosing_stmt(c)) for c in apps]
-  ok = bool(apps) and all(
-      [src(a) for a in c.args] == [err] and any(p and _filter_test(t, err) for t, p in gs)
-      for c, gs in zip(apps, g)) and err not in _stored(add)
-  ctx.check(ok, "ErrorLog._add:filter-guard", ERR, add.lineno,
-            "append must be guarded by `self._filter is None or self._filter(error)` "
-            f"for the appended error; guards={[[(src(t), p) for t, p in gs] for gs in g]}",
-            {"guards": [[(src(t), p) for t, p in gs] for gs in g]})
-  fw = sorted((q, src(mod.parent[n].value)) for k, q, n in _uses(mod, "_filter")
-              if k == "rebind" and isinstance(mod.parent[n], ast.Assign))
+  g = [_gtxt(mod, c) for c in apps]
+  ok = bool(apps) and err not in _stored(add) and all(
+      [src(a) for a in c.args] == [err] and any(p and _filter_test(t, err) for t, p in _guards(mod, c))
+      for c in apps)
+  ctx.check(ok, "ErrorLog._add:filter-guard", ERR, add.lineno, "append must be guarded by `self._filter is "
+            f"None or self._filter({err})` for the appended error; guards={g}", {"guards": g})
+  fu = _uses(mod, "_filter")
+  fw = _writers(mod, fu)
   sef = mod.func("ErrorLog.set_error_filter")
-  ctx.check(fw == [("ErrorLog.__init__", "None"), ("ErrorLog.set_error_filter", _params(sef)[1])]
-            and not [1 for k, _, _ in _uses(mod, "_filter") if k.startswith("mutate")],
+  ctx.check(fw == [("ErrorLog.__init__", "rebind", "None"), ("ErrorLog.set_error_filter", "rebind", _params(sef)[1])],
             "ErrorLog._filter:writers", ERR, sef.lineno,
-            f"_filter is assigned in {fw}; only __init__ and set_error_filter may", {"writers": fw})
+            f"_filter is written in {fw}; only __init__ and set_error_filter may", {"writers": fw})
   # every Error built in the log classes flows into _add
   for cls in ("ErrorLog", "VmErrorLog"):
     for name, fn in sorted(mod.methods(cls).items()):
-      made = [c for c in calls_in(fn) if dotted(c.func) in ("Error", "Error.with_stack")]
-      for i, c in enumerate(made):
+      for i, c in enumerate(k for k in calls_in(fn) if dotted(k.func) in ("Error", "Error.with_stack")):
         st = mod.enclosing_stmt(c)
         var = dotted(st.targets[0]) if isinstance(st, ast.Assign) and st.value is c else None
 
         def adds(u, c=c, var=var):
           return any(dotted(k.func) == "self._add" and len(k.args) == 1 and (
-              k.args[0] is c or (var and dotted(k.args[0]) == var))
-                     for k in flow.unconditional_calls(u))
-        f = flow.flow(fn, mode="may",
-                      gen=lambda u, c=c: {"pending"} if any(n is c for n in flow.unconditional_nodes(u))
-                      and not adds(u) else (),
-                      kill=lambda u: {"pending"} if adds(u) else ())
+              k.args[0] is c or (var and dotted(k.args[0]) == var)) for k in flow.unconditional_calls(u))
+        f = flow.flow(fn, mode="may", kill=lambda u: {"pending"} if adds(u) else (),
+                      gen=lambda u, c=c: {"pending"} if not adds(u) and any(
+                          n is c for n in flow.unconditional_nodes(u)) else ())
         lost = [k for k, _, s in f.exits if k != "raise" and s and "pending" in s]
-        direct = adds(st)
-        ctx.check(not lost and (direct or var), f"{cls}.{name}:Error->_add" + (f"#{i}" if i else ""),
-                  ERR, c.lineno, "an Error is created here but does not reach self._add "
-                  "on every path (it would bypass the filter or be dropped)",
-                  {"via": "direct" if direct else var})
+        ctx.check(not lost and (adds(st) or var), f"{cls}.{name}:Error->_add" + (f"#{i}" if i else ""),
+                  ERR, c.lineno, "an Error is created here but does not reach self._add on every path "
+                  "(it would bypass the filter or be dropped)", {"via": var or "direct"})
   # vm.run_program installs the director's filter before any bytecode runs
   vm = get_module(ctx, VM)
   run = vm.func("VirtualMachine.run_program")
-  inst = calls_in(run, suffix="set_error_filter")
-  dirs = [n for n in walk_no_nested(run) if isinstance(n, ast.Assign)
-          and isinstance(n.value, ast.Call) and dotted(n.value.func) == "directors.Director"]
-  if len(dirs) != 1 or not isinstance(dirs[0].targets[0], ast.Name):
-    raise AnalysisError("run_program: `<name> = directors.Director(...)` not found")
-  dname = dirs[0].targets[0].id
-  good = [c for c in inst if dotted(c.func) == "self.ctx.errorlog.set_error_filter"
-          and [src(a) for a in c.args] == [f"{dname}.filter_error"]]
-  ctx.check(len(good) == 1 and len(inst) == 1, "VirtualMachine.run_program:installs-filter",
-            VM, run.lineno, f"set_error_filter calls: {[src(c) for c in inst]}; expected exactly "
-            f"self.ctx.errorlog.set_error_filter({dname}.filter_error)",
-            {"calls": [src(c) for c in inst]})
-  b = {k: src(v) for k, v in _bind(dirs[0].value, get_module(ctx, DIR).func("Director.__init__")).items()}
-  ctx.check(b.get("errorlog") == "self.ctx.errorlog" and b.get("filename") in ("filename", "self.filename")
-            and "filename" not in _stored(run), "VirtualMachine.run_program:director-wiring", VM,
-            dirs[0].lineno, f"Director is built with {b}; the filter compares error.filename "
-            "with this filename and must see the analysed file", {"args": b})
-  f = flow.flow(run, gen=lambda u: {"installed"} if any(c in good for c in flow.unconditional_calls(u)) else ())
+  dirs = [n for n in walk_no_nested(run) if isinstance(n, ast.Assign) and isinstance(n.value, ast.Call)
+          and dotted(n.value.func) == "directors.Director" and isinstance(n.targets[0], ast.Name)]
   runs = calls_in(run, suffix="run_bytecode")
-  if not runs:
-    raise AnalysisError("run_program: run_bytecode call not found")
-  ok = all("installed" in (f.before.get(vm.enclosing_stmt(c)) or ()) for c in runs)
-  ctx.check(ok, "VirtualMachine.run_program:filter-dominates-run_bytecode", VM, runs[0].lineno,
+  if len(dirs) != 1 or not runs:
+    raise AnalysisError("run_program: `<name> = directors.Director(...)` or run_bytecode not found")
+  want = f"self.ctx.errorlog.set_error_filter({dirs[0].targets[0].id}.filter_error)"
+  inst = calls_in(run, suffix="set_error_filter")
+  b = _bind(dirs[0].value, get_module(ctx, DIR).func("Director.__init__"))
+  ctx.check([src(c) for c in inst] == [want] and b.get("errorlog") == "self.ctx.errorlog"
+            and b.get("filename") == "filename" and "filename" not in _stored(run),
+            "VirtualMachine.run_program:installs-filter", VM, run.lineno,
+            f"set_error_filter calls {[src(c) for c in inst]} (expected exactly {want}) with Director({b}): "
+            "the filter must be the one of the Director built for this file and log", {"director": b})
+  f = flow.flow(run, gen=lambda u: {"on"} if any(src(c) == want for c in flow.unconditional_calls(u)) else ())
+  ctx.check(all("on" in (f.before.get(vm.enclosing_stmt(c)) or ()) for c in runs),
+            "VirtualMachine.run_program:filter-dominates-run_bytecode", VM, runs[0].lineno,
             "run_bytecode is reachable before the director's filter is installed", {"runs": len(runs)})
   if ctx.tier == "thorough":   # who-may-write over the whole package
     foreign, setters, n = [], [], 0
     for rel in all_py_files(ctx):
       text = ctx.read(rel)
-      if "_errors" not in text and "set_error_filter" not in text:
-        continue
-      m = get_module(ctx, rel)
-      n += 1
-      if rel != ERR:
-        foreign += [(rel, q, k) for a in ("_errors", "_errorlog_errors")
-                    for k, q, _ in _uses(m, a) if k != "read"]
-      setters += [(rel, _qual(m, c)) for c in calls_in(m.tree, suffix="set_error_filter")]
+      if "_errors" in text or "set_error_filter" in text:
+        m, n = get_module(ctx, rel), n + 1
+        foreign += [(rel, q, k) for a in ("_errors", "_errorlog_errors") for k, q, _ in _uses(m, a)
+                    if k != "read" and rel != ERR]
+        setters += [(rel, _qual(m, c)) for c in calls_in(m.tree, suffix="set_error_filter")]
     ctx.check(not foreign, "package:_errors-foreign-writers", ERR, 0,
               f"the error list is written outside errors.py: {foreign}", {"files": n})
-    ctx.check(setters == [(VM, "VirtualMachine.run_program")], "package:set_error_filter-callers",
-              VM, 0, f"set_error_filter is called from {setters}; only run_program may",
-              {"callers": setters})
+    ctx.check(setters == [(VM, "VirtualMachine.run_program")], "package:set_error_filter-callers", VM, 0,
+              f"set_error_filter is called from {setters}; only run_program may", {"callers": setters})
 
 
-# -- R3.3 -----------------------------------------------------------------------
+# -- R3.3 ---------------------------------------------------------------------------
 
-def _atoms(node, out):
+def _beval(node, val, atoms):
+  """Evaluates a not/and/or combination of `x in c` / `x not in c` under `val`; collects the atoms."""
   if isinstance(node, ast.BoolOp):
-    for v in node.values:
-      _atoms(v, out)
-  elif isinstance(node, ast.UnaryOp) and isinstance(node.op, ast.Not):
-    _atoms(node.operand, out)
-  elif isinstance(node, ast.Compare) and len(node.ops) == 1 and isinstance(node.ops[0], (ast.In, ast.NotIn)):
-    out.add((src(node.left), src(node.comparators[0])))
-  else:
-    raise AnalysisError(f"filter_error: not a membership combination: {src(node)}")
-  return out
-
-
-def _beval(node, val):
-  if isinstance(node, ast.BoolOp):
-    vs = [_beval(v, val) for v in node.values]
+    vs = [_beval(v, val, atoms) for v in node.values]
     return all(vs) if isinstance(node.op, ast.And) else any(vs)
-  if isinstance(node, ast.UnaryOp):
-    return not _beval(node.operand, val)
-  r = val[(src(node.left), src(node.comparators[0]))]
-  return r if isinstance(node.ops[0], ast.In) else not r
+  if isinstance(node, ast.UnaryOp) and isinstance(node.op, ast.Not):
+    return not _beval(node.operand, val, atoms)
+  if isinstance(node, ast.Compare) and len(node.ops) == 1 and isinstance(node.ops[0], (ast.In, ast.NotIn)):
+    key = (src(node.left), src(node.comparators[0]))
+    atoms.add(key)
+    return val.get(key, False) == isinstance(node.ops[0], ast.In)
+  raise AnalysisError(f"filter_error: not a membership combination: {src(node)}")
 
 
-@rule("R3.3", "C03", floor=4)
+@rule("R3.3", "C03", floor=3)
 def r3_3(ctx):
   """filter_error = line in none of _ignore, _disables['*'], _disables[name]."""
   mod = get_module(ctx, DIR)
@@ -507,45 +427,38 @@ def r3_3(ctx):
   final = fn.body[-1]
   if not isinstance(final, ast.Return) or final.value is None:
     raise AnalysisError("filter_error does not end in a return")
-  atoms = sorted(_atoms(final.value, set()))
+  atoms = set()
+  _beval(final.value, {}, atoms)
+  atoms = sorted(atoms)
   want = {"self._ignore", "self._disables[_ALL_ERRORS]", f"self._disables[{err}.name]"}
-  table_ok = all(_beval(final.value, dict(zip(atoms, bits))) == (not any(bits))
+  table_ok = all(_beval(final.value, dict(zip(atoms, bits)), set()) == (not any(bits))
                  for bits in itertools.product((False, True), repeat=len(atoms)))
-  lefts = {a for a, _ in atoms}
-  ctx.check(table_ok and {c for _, c in atoms} == want and len(lefts) == 1,
-            "Director.filter_error:conjunction", DIR, final.lineno,
-            f"returns {src(final.value)}: must be true iff one and the same line is in none of {sorted(want)}",
-            {"atoms": atoms})
-  left = sorted(lefts)[0]
-  v = _single_def(fn, left) if left.isidentifier() else None
-  s = src(v) if v is not None else left
-  ctx.check(f"{err}.line" in (flow.attrs_in(v) if v is not None else {left}),
-            "Director.filter_error:line-source", DIR, final.lineno,
-            f"the tested line is `{s}`; it must be the error's line", {"line": s})
+  lefts = sorted({a for a, _ in atoms})
+  v = _single_def(fn, lefts[0]) if lefts[0].isidentifier() else None
+  line = src(v) if v is not None else lefts[0]
+  ctx.check(table_ok and {c for _, c in atoms} == want and len(lefts) == 1
+            and f"{err}.line" in (flow.attrs_in(v) if v is not None else {line}),
+            "Director.filter_error:conjunction", DIR, final.lineno, f"returns {src(final.value)} with line = "
+            f"{line}: must be true iff the error's line is in none of {sorted(want)}", {"atoms": atoms, "line": line})
   allowed = {f"{err}.filename != self._filename", f"{err}.line is None"}
   odd = []
   for r in _returns(fn):
-    if r is final:
-      continue
-    g = flow.guards(mod.parent, r)
+    g = _guards(mod, r)
     ops = [src(x) for x in g[0][0].values] if len(g) == 1 and isinstance(g[0][0], ast.BoolOp) \
         and isinstance(g[0][0].op, ast.Or) else [src(t) for t, _ in g]
-    if not (src(r.value) == "True" and len(g) == 1 and g[0][1] and set(ops) <= allowed):
-      odd.append((src(r), [(src(t), p) for t, p in g]))
-  ctx.check(not odd, "Director.filter_error:early-returns", DIR, fn.lineno,
-            f"early exits {odd} bypass the ignore/disable tests; only errors of another "
-            "file or without a line may", {"allowed": sorted(allowed)})
+    if r is not final and not (src(r.value) == "True" and len(g) == 1 and g[0][1] and set(ops) <= allowed):
+      odd.append((src(r), _gtxt(mod, r)))
+  ctx.check(not odd, "Director.filter_error:early-returns", DIR, fn.lineno, f"early exits {odd} bypass the "
+            "ignore/disable tests; only errors of another file or without a line may", {"allowed": sorted(allowed)})
   init = mod.func("Director.__init__")
-  sets = {dotted(n.targets[0]): src(n.value) for n in walk_no_nested(init)
-          if isinstance(n, ast.Assign) and dotted(n.targets[0]) in ("self._ignore", "self._disables")}
+  sets = {dotted(n.targets[0]): src(n.value) for n in walk_no_nested(init) if isinstance(n, ast.Assign)
+          and dotted(n.targets[0]) in ("self._ignore", "self._disables")}
   ctx.check(sets == {"self._ignore": "_LineSet()", "self._disables": "collections.defaultdict(_LineSet)"},
             "Director.__init__:line-sets", DIR, init.lineno,
             f"_ignore/_disables are {sets}; membership must be _LineSet.__contains__", {"sets": sets})
-  if try_const(mod, "_ALL_ERRORS") != "*":
-    raise AnalysisError("_ALL_ERRORS is not the wildcard string")
 
 
-# -- R3.4 -----------------------------------------------------------------------
+# -- R3.4 ---------------------------------------------------------------------------
 
 @rule("R3.4", "C03", floor=3)
 def r3_4(ctx):
@@ -554,53 +467,46 @@ def r3_4(ctx):
   fn = mod.func("_LineSet.__contains__")
   key = _params(fn)[1]
   rets = _returns(fn)
-  spec = [r for r in rets if isinstance(r.value, ast.Name)
-          and _resolve(fn, r.value) == f"self._lines.get({key})"]
+  spec = [r for r in rets if isinstance(r.value, ast.Name) and _resolve(fn, r.value) == f"self._lines.get({key})"]
   if len(spec) != 1:
     if "self._lines" in flow.attrs_in(fn):
       raise AnalysisError("__contains__: per-line lookup has an unknown shape")
-    ctx.bad("_LineSet.__contains__:specific-first", DIR, fn.lineno,
-            "per-line entries (_lines) are not consulted at all")
-    return
+    return ctx.bad("_LineSet.__contains__:specific-first", DIR, fn.lineno,
+                   "per-line entries (_lines) are not consulted at all")
   v = spec[0].value.id
-  hit, miss = [(f"{v} is not None", True), (f"{v} is None", False)], \
-      [(f"{v} is not None", False), (f"{v} is None", True)]
-  g = _gtxt(mod, spec[0], fn)
+  hit = [(f"{v} is not None", True), (f"{v} is None", False)]
+  miss = [(f"{v} is not None", False), (f"{v} is None", True)]
+  g = _gtxt(mod, spec[0])
   ctx.check(len(g) == 1 and g[0] in hit, "_LineSet.__contains__:specific-first", DIR, spec[0].lineno,
             f"the per-line entry is returned under {g}; it must be returned exactly when it is not None",
             {"guards": g})
   others = [r for r in rets if r is not spec[0]]
   if len(others) != 1:
     raise AnalysisError("__contains__: expected one range fall-back return")
-  r = others[0]
-  g = _gtxt(mod, r, fn)
-  val = r.value
-  shape = (isinstance(val, ast.Compare) and len(val.ops) == 1 and isinstance(val.left, ast.BinOp)
-           and isinstance(val.left.op, ast.Mod) and src(val.left.right) == "2"
-           and isinstance(val.ops[0], (ast.Eq, ast.NotEq)) and src(val.comparators[0]) in ("0", "1"))
-  if not shape:
+  val, g = others[0].value, _gtxt(mod, others[0])
+  if not (isinstance(val, ast.Compare) and len(val.ops) == 1 and isinstance(val.left, ast.BinOp)
+          and isinstance(val.left.op, ast.Mod) and src(val.left.right) == "2"
+          and isinstance(val.ops[0], (ast.Eq, ast.NotEq)) and src(val.comparators[0]) in ("0", "1")):
     raise AnalysisError(f"__contains__: range parity test has unknown shape {src(val)}")
   pos = _resolve(fn, val.left.left)
   odd = isinstance(val.ops[0], ast.Eq) == (src(val.comparators[0]) == "1")
   ctx.check(any(x in miss for x in g) and odd and pos in (
       f"bisect.bisect(self._transitions, {key})", f"bisect.bisect_right(self._transitions, {key})"),
-            "_LineSet.__contains__:range-fallback", DIR, r.lineno,
-            f"range answer `{src(val)}` (pos={pos}) under {g}: it must be consulted only when "
-            "there is no per-line entry and be true for an odd bisect_right position",
-            {"guards": g, "pos": pos})
+            "_LineSet.__contains__:range-fallback", DIR, others[0].lineno,
+            f"range answer `{src(val)}` (pos={pos}) under {g}: it must be consulted only when there is no "
+            "per-line entry and be true for an odd bisect_right position", {"guards": g, "pos": pos})
   sl = mod.func("_LineSet.set_line")
   a, b = _params(sl)[1:3]
-  st = [(src(n.targets[0]), src(n.value)) for n in sl.body if isinstance(n, ast.Assign)]
   if any(not isinstance(n, (ast.Assign, ast.Expr)) for n in sl.body):
     raise AnalysisError("_LineSet.set_line: body is not straight-line")
+  st = [(src(n.targets[0]), src(n.value)) for n in sl.body if isinstance(n, ast.Assign)]
   ctx.check(st == [(f"self._lines[{a}]", b)], "_LineSet.set_line:stores", DIR, sl.lineno,
-            f"set_line performs {st}; it must store the given membership under the given line",
-            {"stores": st})
+            f"set_line performs {st}; it must store the given membership under the given line", {"stores": st})
 
 
-# -- R3.5 -----------------------------------------------------------------------
+# -- R3.5 ---------------------------------------------------------------------------
 
-@rule("R3.5", "C03", floor=7)
+@rule("R3.5", "C03", floor=6)
 def r3_5(ctx):
   """No directive is lost between the tokenizer and the Director."""
   mod = get_module(ctx, PAR)
@@ -627,9 +533,7 @@ def r3_5(ctx):
   copies = (f"list({cs})", cs, f"{cs}[:]", f"[*{cs}]", f"{cs}.copy()")
   if src(v) not in copies and cs in flow.names_in(v):
     raise AnalysisError(f"seed group value has unknown shape: {src(v)}")
-  why = []
-  if gen.ifs:
-    why.append(f"raw comments are filtered by {[src(i) for i in gen.ifs]}")
+  why = [f"raw comments are filtered by {[src(i) for i in gen.ifs]}"] if gen.ifs else []
   if src(k) != f"LineRange({ln}, {ln})":
     why.append(f"group key is {src(k)}, not the never-skipped base LineRange({ln}, {ln})")
   if src(v) not in copies:
@@ -645,97 +549,63 @@ def r3_5(ctx):
     raise AnalysisError(f"{q}: `groups[key] = new_group = []` not found")
   ng = [t.id for t in new[0].targets if isinstance(t, ast.Name)][0]
   sub = [t for t in new[0].targets if isinstance(t, ast.Subscript)][0]
-  ctx.check(src(sub.value) == GROUPS and isinstance(fn.body[-1], ast.Return)
-            and src(fn.body[-1].value) == ng and _single_def(fn, ng) is new[0].value,
-            f"{q}:new-group-stored", PAR, new[0].lineno,
-            "the list that absorbs merged groups must be the one stored in "
-            "structured_comment_groups and returned", {"name": ng, "stored_in": src(sub)})
-
-  def gen_ext(u):
-    return {("ext", c.args[0].slice.id) for c in flow.unconditional_calls(u)
-            if dotted(c.func) == f"{ng}.extend" and len(c.args) == 1
-            and isinstance(c.args[0], ast.Subscript) and src(c.args[0].value) == GROUPS
-            and isinstance(c.args[0].slice, ast.Name)}
+  ctx.check(src(sub.value) == GROUPS and isinstance(fn.body[-1], ast.Return) and src(fn.body[-1].value) == ng
+            and _single_def(fn, ng) is new[0].value, f"{q}:new-group-stored", PAR, new[0].lineno,
+            "the list that absorbs merged groups must be the one stored in structured_comment_groups "
+            "and returned", {"name": ng, "stored_in": src(sub)})
 
   def kill(u):
     names = _stored(u)
-    return (lambda f: f[1] in names or ng in names) if names else None
-  f = flow.flow(fn, gen_ext, kill)
-  removers = set()
-  for n in ast.walk(mod.cls("_ParseVisitor")):
-    if isinstance(n, ast.Delete):
-      for t in n.targets:
-        if isinstance(t, ast.Subscript) and src(t.value) == GROUPS:
-          removers.add(_qual(mod, n))
-          if mod.enclosing_function(n) is fn:
-            key = src(t.slice)
-            ctx.check(("ext", key) in (f.before.get(n) or ()), f"{q}:del[{key}]", PAR, n.lineno,
-                      f"group {key} is deleted without `{ng}.extend({GROUPS}[{key}])` on every "
-                      "path before it: its directives are lost", {"before": sorted(f.before.get(n) or ())})
-    elif isinstance(n, ast.Call) and isinstance(n.func, ast.Attribute) and src(n.func.value) == GROUPS \
-        and n.func.attr in ("pop", "popitem", "clear"):
-      par = mod.parent[n]
-      if not (isinstance(par, ast.Call) and dotted(par.func) == f"{ng}.extend"):
-        removers.add(_qual(mod, n) + ":" + n.func.attr)
-    elif isinstance(n, ast.Attribute) and src(n) == GROUPS and not isinstance(n.ctx, ast.Load) \
-        and _qual(mod, n) != "_ParseVisitor.__init__":
-      removers.add(_qual(mod, n) + ":rebind")
-  ctx.check(removers <= {q}, "structured_comment_groups:removers", PAR, fn.lineno,
-            f"groups are removed in {sorted(removers)}; only {q} (extend-then-delete) may",
-            {"removers": sorted(removers)})
+    return (lambda f: f in names or ng in names) if names else None
+  f = flow.flow(fn, kill=kill, gen=lambda u: {
+      c.args[0].slice.id for c in flow.unconditional_calls(u) if dotted(c.func) == f"{ng}.extend"
+      and len(c.args) == 1 and isinstance(c.args[0], ast.Subscript) and src(c.args[0].value) == GROUPS
+      and isinstance(c.args[0].slice, ast.Name)})
+  dels = [(n, src(t.slice)) for n in walk_no_nested(fn) if isinstance(n, ast.Delete) for t in n.targets
+          if isinstance(t, ast.Subscript) and src(t.value) == GROUPS]
+  for n, key in dels:
+    ctx.check(key in (f.before.get(n) or ()), f"{q}:del[{key}]", PAR, n.lineno,
+              f"group {key} is deleted without `{ng}.extend({GROUPS}[{key}])` on every path before it: "
+              "its directives are lost", {"extended": sorted(f.before.get(n) or ())})
   # Director side: base ranges are never skipped, every comment is dispatched
   dmod = get_module(ctx, DIR)
   keep = dmod.func("Director._process_disable.keep")
-  wrong = []
-  for r in _returns(keep):
-    g = flow.guards(dmod.parent, r)
-    is_call = any(p and isinstance(t, ast.Call) and dotted(t.func) == "isinstance" and len(t.args) == 2
-                  and src(t.args[0]) == "line_range" and src(t.args[1]).endswith("Call") for t, p in g)
-    if not is_call and src(r.value) != "True":
-      wrong.append(src(r))
+  wrong = [src(r) for r in _returns(keep) if src(r.value) != "True" and not any(
+      p and isinstance(t, ast.Call) and dotted(t.func) == "isinstance" and len(t.args) == 2
+      and src(t.args[0]) == "line_range" and src(t.args[1]).endswith("Call") for t, p in _guards(dmod, r))]
   ctx.check(not wrong and flow.terminates(keep.body), "Director._process_disable.keep:base-range", DIR,
             keep.lineno, f"keep() answers {wrong} for a base LineRange; only Call ranges may be skipped",
             {"returns": [src(r) for r in _returns(keep)]})
   fn = dmod.func("Director._parse_src_tree")
   for target in ("_process_type", "_process_pytype"):
     calls = calls_in(fn, name=f"self.{target}")
-    if len(calls) != 1:
-      raise AnalysisError(f"_parse_src_tree: expected one call of {target}")
-    c = calls[0]
-    loops, node = [], c
+    loops, node = [], calls[0] if len(calls) == 1 else fn
     while node is not fn:
       node = dmod.parent[node]
-      if isinstance(node, ast.For):
-        loops.append(node)
-    it = loops[1].iter if len(loops) == 2 else None
-    if not (isinstance(it, ast.Call) and isinstance(it.func, ast.Attribute) and it.func.attr == "items"
-            and isinstance(it.func.value, ast.Attribute) and not it.args
-            and it.func.value.attr == "structured_comment_groups"
-            and _resolve(fn, it.func.value.value).startswith("parser.visit_src_tree(")
+      loops += [node] if isinstance(node, ast.For) else []
+    if not (len(loops) == 2 and src(loops[1].iter) == "visitor.structured_comment_groups.items()"
+            and _resolve(fn, ast.Name(id="visitor")).startswith("parser.visit_src_tree(")
             and isinstance(loops[1].target, ast.Tuple) and len(loops[1].target.elts) == 2):
-      raise AnalysisError("_parse_src_tree: group/comment loops have an unknown shape")
+      raise AnalysisError(f"_parse_src_tree: one {target} call inside the group/comment loops expected")
     rng, grp = (src(e) for e in loops[1].target.elts)
     cm = src(loops[0].target)
-    b = {k: src(v) for k, v in _bind(c, dmod.func(f"Director.{target}")).items()}
+    b = _bind(calls[0], dmod.func(f"Director.{target}"))
     want = {"line": f"{cm}.line", "data": f"{cm}.data", "open_ended": f"{cm}.open_ended", "line_range": rng}
-    g = _gtxt(dmod, c, fn)
+    g = _gtxt(dmod, calls[0])
     tool = (f"{cm}.tool == 'type'", target == "_process_type")
-    extra = [x for x in g if x != tool and x != (f"{cm}.tool == 'pytype'", True)
-             and not flow.names_in(ast.parse(x[0], mode="eval")) <= {"visitor"}]
+    extra = [x for x in g if x not in (tool, (f"{cm}.tool == 'pytype'", True), ("not visitor", False))]
     ctx.check(b == want and src(loops[0].iter) == grp and tool in g and not extra,
-              f"Director._parse_src_tree:dispatch:{target}", DIR, c.lineno,
+              f"Director._parse_src_tree:dispatch:{target}", DIR, calls[0].lineno,
               f"{target} receives {b} under {g}; expected {want} for every comment of every group",
               {"args": b, "guards": g})
 
 
-# -- R3.6 -----------------------------------------------------------------------
+# -- R3.6 ---------------------------------------------------------------------------
 
 def _plain(x):
   if isinstance(x, sp.SubPattern):
     return [_plain(i) for i in x.data]
-  if isinstance(x, (tuple, list)):
-    return type(x)(_plain(i) for i in x)
-  return x
+  return type(x)(_plain(i) for i in x) if isinstance(x, (tuple, list)) else x
 
 
 def _pattern(mod, name):
@@ -761,9 +631,7 @@ def _lang(items):
     elif op is sc.SUBPATTERN:
       alts = _lang(av[3])
     elif op in (sc.MAX_REPEAT, sc.MIN_REPEAT) and av[1] <= 2:
-      inner, alts = _lang(av[2]), set()
-      for n in range(av[0], av[1] + 1):
-        alts |= {"".join(p) for p in itertools.product(inner, repeat=n)}
+      alts = {"".join(p) for n in range(av[0], av[1] + 1) for p in itertools.product(_lang(av[2]), repeat=n)}
     else:
       raise AnalysisError(f"regex group is not a finite literal language: {op}")
     out = {a + b for a in out for b in alts}
@@ -772,15 +640,13 @@ def _lang(items):
   return out
 
 
-_WS = [(sc.IN, [(sc.CATEGORY, sc.CATEGORY_SPACE)])]
-
-
 def _ws(item):
   """(min, max) if item is a repeat of \\s, else None."""
-  return item[1][:2] if item[0] in (sc.MAX_REPEAT, sc.MIN_REPEAT) and item[1][2] == _WS else None
+  return item[1][:2] if item[0] in (sc.MAX_REPEAT, sc.MIN_REPEAT) and item[1][2] == [
+      (sc.IN, [(sc.CATEGORY, sc.CATEGORY_SPACE)])] else None
 
 
-@rule("R3.6", "C03", floor=10)
+@rule("R3.6", "C03", floor=8)
 def r3_6(ctx):
   """Directive syntax and the disable/enable wiring."""
   mod = get_module(ctx, PAR)
@@ -788,43 +654,18 @@ def r3_6(ctx):
   gi = [i for i, (op, av) in enumerate(items) if op is sc.SUBPATTERN and av[0] == 1]
   if len(gi) != 1:
     raise AnalysisError("_DIRECTIVE_RE: group 1 is not a top-level group")
-  gi = gi[0]
-  loc = mod.const("_DIRECTIVE_RE").lineno
-  tools = sorted(_lang(items[gi][1][3]))
+  loc, pre, post = mod.const("_DIRECTIVE_RE").lineno, items[:gi[0]], items[gi[0] + 1:]
+  tools = sorted(_lang(items[gi[0]][1][3]))
   ctx.check(tools == ["pytype", "type"], "_DIRECTIVE_RE:tool-group", PAR, loc,
             f"group 1 matches {tools}; the tools are exactly pytype and type", {"tools": tools})
-  pre, post = items[:gi], items[gi + 1:]
   if any(_ws(i) is None and i[0] is not sc.LITERAL for i in pre + post[:2]):
     raise AnalysisError(f"_DIRECTIVE_RE: unknown items around the tool group in {text!r}")
   ctx.check(len(pre) == 2 and pre[0] == (sc.LITERAL, ord("#")) and _ws(pre[1]) == (0, sc.MAXREPEAT),
-            "_DIRECTIVE_RE:prefix", PAR, loc, f"{text!r}: the tool must be preceded by `#\\s*`",
-            {"pattern": text})
+            "_DIRECTIVE_RE:prefix", PAR, loc, f"{text!r}: the tool must be preceded by `#\\s*`", {"pattern": text})
   ctx.check(len(post) >= 2 and _ws(post[0]) == (0, sc.MAXREPEAT) and post[1] == (sc.LITERAL, ord(":")),
             "_DIRECTIVE_RE:separator", PAR, loc, f"{text!r}: the tool must be followed by `\\s*:`",
             {"pattern": text})
-  data = [av for op, av in post if op is sc.SUBPATTERN]
-  pc = mod.func("_process_comment")
-  unpack = [n for n in walk_no_nested(pc) if isinstance(n, ast.Assign) and isinstance(n.targets[0], ast.Tuple)
-            and src(n.value).endswith(".groups()")]
-  if len(unpack) != 1 or len(unpack[0].targets[0].elts) != 2:
-    raise AnalysisError("_process_comment: `tool, data = m.groups()` not found")
-  ctx.check(len(data) == 1 and data[0][0] == 2 and data[0][3] == [
-      (sc.MAX_REPEAT, (0, sc.MAXREPEAT, [(sc.NOT_LITERAL, ord("#"))]))] and post[-1][0] is sc.SUBPATTERN,
-            "_DIRECTIVE_RE:data-group", PAR, loc,
-            f"{text!r}: group 2 (the data) must be `[^#]*` directly after the colon",
-            {"groups": 1 + len(data)})
-  t_name, d_name = (src(e) for e in unpack[0].targets[0].elts)
-  mk = calls_in(pc, name="_StructuredComment")
-  if len(mk) != 1 or mk[0].keywords:
-    raise AnalysisError("_process_comment: _StructuredComment(...) call not found")
-  fields = [s.target.id for s in mod.cls("_StructuredComment").body if isinstance(s, ast.AnnAssign)]
-  got = dict(zip(fields, (src(a) for a in mk[0].args)))
-  oe = _single_def(pc, got.get("open_ended", "?")) if got.get("open_ended", "").isidentifier() else None
-  want = {"line": _params(pc)[1], "tool": t_name, "data": d_name, "open_ended": got.get("open_ended")}
-  ctx.check(got == want and oe is not None and isinstance(oe, ast.UnaryOp) and src(oe).endswith(".strip()"),
-            "_StructuredComment:field-order", PAR, mk[0].lineno,
-            f"_StructuredComment is built as {got}; fields are {fields}", {"got": got})
-  # IGNORE_RE
+  # IGNORE_RE: `ignore` + optional [..], nothing after it at every use
   text, items = _pattern(mod, "IGNORE_RE")
   start = bool(items) and items[0] == (sc.AT, sc.AT_BEGINNING)
   end = bool(items) and items[-1] in ((sc.AT, sc.AT_END), (sc.AT, sc.AT_END_STRING))
@@ -834,33 +675,29 @@ def r3_6(ctx):
   if rest and not (len(rest) == 1 and rest[0] is core[-1] and rest[0][0] is sc.MAX_REPEAT
                    and rest[0][1][:2] == (0, 1) and rest[0][1][2][0][0] is sc.SUBPATTERN):
     raise AnalysisError(f"IGNORE_RE: unknown shape {text!r}")
-  br = rest[0][1][2][0][1][3] if rest else None
-  ctx.check(word == "ignore" and (br is None or (br[0] == (sc.LITERAL, ord("[")) and br[-1] == (sc.LITERAL, ord("]")))),
+  br = rest[0][1][2][0][1][3] if rest else [(sc.LITERAL, ord("[")), (sc.LITERAL, ord("]"))]
+  ctx.check(word == "ignore" and br[0] == (sc.LITERAL, ord("[")) and br[-1] == (sc.LITERAL, ord("]")),
             "IGNORE_RE:pattern", PAR, mod.const("IGNORE_RE").lineno,
             f"{text!r} must accept `ignore` with an optional [..] group", {"word": word})
-  for rel in (PAR, DIR):
-    m = get_module(ctx, rel)
+  for m in (mod, get_module(ctx, DIR)):
     for n in ast.walk(m.tree):
       if isinstance(n, ast.Attribute) and (dotted(n.value) or "").split(".")[-1] == "IGNORE_RE":
-        how = n.attr
-        ok = how == "fullmatch" or (how == "match" and end) or (how == "search" and start and end)
-        ctx.check(ok, f"IGNORE_RE:use@{_qual(m, n)}", rel, n.lineno,
-                  f"IGNORE_RE.{how} with pattern {text!r} accepts text after `ignore`", {"method": how})
+        ok = n.attr == "fullmatch" or (n.attr == "match" and end) or (n.attr == "search" and start and end)
+        ctx.check(ok, f"IGNORE_RE:use@{_qual(m, n)}", m.rel, n.lineno,
+                  f"IGNORE_RE.{n.attr} with pattern {text!r} accepts text after `ignore`", {"method": n.attr})
   # disable/enable wiring
   dmod = get_module(ctx, DIR)
   fn = dmod.func("Director._process_pytype")
-  table = {}
-  for n in walk_no_nested(fn):
-    if isinstance(n, ast.If) and isinstance(n.test, ast.Compare) and src(n.test.left) == "command" \
-        and isinstance(n.test.ops[0], ast.Eq) and isinstance(n.test.comparators[0], ast.Constant):
-      table[n.test.comparators[0].value] = n
+  table = {n.test.comparators[0].value: n for n in walk_no_nested(fn)
+           if isinstance(n, ast.If) and isinstance(n.test, ast.Compare) and src(n.test.left) == "command"
+           and isinstance(n.test.ops[0], ast.Eq) and isinstance(n.test.comparators[0], ast.Constant)}
   if not table:
     raise AnalysisError("_process_pytype: command dispatch chain not found")
   callee = dmod.func("Director._process_disable")
   for cmd, flag in (("disable", "True"), ("enable", "False")):
     calls = [c for s in table[cmd].body for c in calls_in(s)] if cmd in table else []
     pd = [c for c in calls if dotted(c.func) == "self._process_disable"]
-    b = {k: src(v) for k, v in _bind(pd[0], callee).items()} if len(pd) == 1 else {}
+    b = _bind(pd[0], callee) if len(pd) == 1 else {}
     ctx.check(len(calls) == len(pd) == 1 and b.get("disable") == flag and set(b) == set(_params(callee)[1:])
               and all(b[p] == p for p in ("line", "line_range", "open_ended")),
               f"Director._process_pytype:{cmd}", DIR, table[cmd].lineno if cmd in table else fn.lineno,
@@ -868,27 +705,30 @@ def r3_6(ctx):
               f"_process_disable(line, line_range, open_ended, <names>, disable={flag})", {"args": b})
 
 
-# -- sensitivity suite -------------------------------------------------------------
+# -- sensitivity suite -----------------------------------------------------------------
 
 def _v(name, rid, file, old, new, expect="fire"):
   return {"name": name, "rule": rid, "file": file, "old": old, "new": new, "expect": expect}
 
 
+def _vs(name, rid, expect, *edits):
+  return {"name": name, "rule": rid, "expect": expect, "edits": list(edits)}
+
+
+_FILT = "if self._filter is None or self._filter(error):"
+_INSTALL = "    self.ctx.errorlog.set_error_filter(director.filter_error)\n"
+_SEED = "(LineRange(lineno, lineno), list(structured_comments))"
+_EXT = "      new_group.extend(self.structured_comment_groups[k])\n"
 VARIANTS = [
     _v("disable-own-line-dropped", "R3.1", DIR, "            lines.set_line(line, disable)\n", "            pass\n"),
     _v("ignore-own-line-dropped", "R3.1", DIR, "        self._ignore.set_line(line, True)\n", ""),
     _v("own-line-guard-inverted", "R3.1", DIR, "if final_line != line:", "if final_line == line:"),
     _v("open-ended-arms-swapped", "R3.1", DIR, "        if open_ended:\n          lines.start_range",
        "        if not open_ended:\n          lines.start_range"),
-    _v("own-line-wrong-polarity", "R3.1", DIR, "lines.set_line(line, disable)", "lines.set_line(line, True)"),
     _v("registration-depends-on-position", "R3.1", DIR, "        if not keep(error_name):",
        "        if not keep(error_name) or line == line_range.end_line:"),
-    _v("ignore-registered-on-wildcard-set", "R3.1", DIR, "self._ignore.set_line(line, True)",
-       "self._disables[data].set_line(line, True)"),
-    _v("filter-bypassed-for-one-class", "R3.2", ERR, "if self._filter is None or self._filter(error):",
+    _v("filter-bypassed-for-one-class", "R3.2", ERR, _FILT,
        "if self._filter is None or error.name == 'pyi-error' or self._filter(error):"),
-    _v("filter-not-consulted", "R3.2", ERR, "if self._filter is None or self._filter(error):",
-       "if self._filter is not None:"),
     _v("extra-append-in-error", "R3.2", ERR, "    self._add(err)\n", "    self._errors.append(err)\n"),
     _v("warn-drops-error", "R3.2", ERR, "    self._add(\n        Error.with_stack(stack, SEVERITY_WARNING,",
        "    _log.info(\n        Error.with_stack(stack, SEVERITY_WARNING,"),
@@ -896,38 +736,29 @@ VARIANTS = [
        "self._errorlog_errors[: self._position] + self.errors[:1]\n"),
     _v("filter-reset-elsewhere", "R3.2", ERR, "    checkpoint = CheckPoint(self._errors)\n",
        "    checkpoint = CheckPoint(self._errors)\n    self._filter = None\n"),
-    _v("filter-never-installed", "R3.2", VM, "    self.ctx.errorlog.set_error_filter(director.filter_error)\n", ""),
-    {"name": "filter-installed-after-run", "rule": "R3.2", "expect": "fire", "edits": [
-        (VM, "    self.ctx.errorlog.set_error_filter(director.filter_error)\n", ""),
-        (VM, "    logging.info(\"Done running bytecode, postprocessing globals\")\n",
-         "    self.ctx.errorlog.set_error_filter(director.filter_error)\n")]},
+    _v("filter-never-installed", "R3.2", VM, _INSTALL, ""),
+    _vs("filter-installed-after-run", "R3.2", "fire", (VM, _INSTALL, ""),
+        (VM, "    logging.info(\"Done running bytecode, postprocessing globals\")\n", _INSTALL)),
     _v("director-gets-other-filename", "R3.2", VM, "src_tree, self.ctx.errorlog, filename, self.ctx.options.disable",
        "src_tree, self.ctx.errorlog, src, self.ctx.options.disable"),
     _v("wildcard-disable-not-consulted", "R3.3", DIR, "        and line not in self._disables[_ALL_ERRORS]\n", ""),
-    _v("conjunction-becomes-disjunction", "R3.3", DIR, "        and line not in self._disables[error.name]",
-       "        or line not in self._disables[error.name]"),
     _v("ignore-tested-on-unadjusted-line", "R3.3", DIR, "        line not in self._ignore",
        "        error.line not in self._ignore"),
-    _v("membership-not-negated", "R3.3", DIR, "        line not in self._ignore", "        line in self._ignore"),
     _v("early-exit-for-one-class", "R3.3", DIR, "    # Treat line=0 as below the file, so we can filter it.\n",
        "    if error.name == 'name-error':\n      return True\n"),
     _v("disables-use-plain-sets", "R3.3", DIR, "self._disables = collections.defaultdict(_LineSet)",
        "self._disables = collections.defaultdict(set)"),
     _v("per-line-entry-only-when-true", "R3.4", DIR, "if specific is not None:", "if specific:"),
-    {"name": "range-consulted-first", "rule": "R3.4", "expect": "fire", "edits": [
+    _vs("range-consulted-first", "R3.4", "fire",
         (DIR, "    specific = self._lines.get(line)\n    if specific is not None:\n      return specific\n", ""),
-        (DIR, "    return (pos % 2) == 1\n",
-         "    if (pos % 2) == 1:\n      return True\n    specific = self._lines.get(line)\n"
-         "    if specific is not None:\n      return specific\n    return False\n")]},
+        (DIR, "    return (pos % 2) == 1\n", "    if (pos % 2) == 1:\n      return True\n    specific = self._lines"
+         ".get(line)\n    if specific is not None:\n      return specific\n    return False\n")),
     _v("range-parity-inverted", "R3.4", DIR, "return (pos % 2) == 1", "return (pos % 2) == 0"),
     _v("set_line-ignores-polarity", "R3.4", DIR, "self._lines[line] = membership", "self._lines[line] = True"),
     _v("seed-skips-open-ended", "R3.5", PAR, "in raw_structured_comments.items()\n    )",
        "in raw_structured_comments.items()\n        if not structured_comments[0].open_ended\n    )"),
-    _v("seed-as-call-range", "R3.5", PAR, "(LineRange(lineno, lineno), list(structured_comments))",
-       "(Call(lineno, lineno), list(structured_comments))"),
-    _v("merge-drops-absorbed-group", "R3.5", PAR, "      new_group.extend(self.structured_comment_groups[k])\n", ""),
-    _v("merge-extends-other-list", "R3.5", PAR, "      new_group.extend(self.structured_comment_groups[k])\n",
-       "      keys_to_move.extend(self.structured_comment_groups[k])\n"),
+    _v("seed-as-call-range", "R3.5", PAR, _SEED, "(Call(lineno, lineno), list(structured_comments))"),
+    _v("merge-drops-absorbed-group", "R3.5", PAR, _EXT, ""),
     _v("moved-groups-deleted", "R3.5", PAR, "      self.structured_comment_groups.move_to_end(k)\n",
        "      del self.structured_comment_groups[k]\n"),
     _v("base-range-skipped", "R3.5", DIR, "      else:\n        return True\n\n    if not values:",
@@ -939,11 +770,8 @@ VARIANTS = [
        "          assert comment.tool == \"pytype\"\n          if comment.open_ended:\n            continue\n"),
     _v("tool-group-loses-type", "R3.6", PAR, "(pytype|type)", "(pytype)"),
     _v("tool-requires-space-before-colon", "R3.6", PAR, r"(pytype|type)\s*:", r"(pytype|type)\s+:"),
-    _v("data-group-greedy", "R3.6", PAR, r"([^#]*)", r"(.*)"),
     _v("ignore-not-anchored-at-end", "R3.6", PAR, r'r"^ignore(\[.+\])?$"', r'r"^ignore(\[.+\])?"'),
     _v("enable-wired-to-disable", "R3.6", DIR, "values, disable=False", "values, disable=True"),
-    _v("tool-and-data-swapped", "R3.6", PAR, "_StructuredComment(lineno, tool, data, open_ended)",
-       "_StructuredComment(lineno, data, tool, open_ended)"),
     _v("extra-line-registered", "R3.7", DIR, "          lines.set_line(final_line, disable)\n",
        "          lines.set_line(final_line, disable)\n          lines.set_line(line_range.end_line, disable)\n"),
     _v("ignore-also-disables-wildcard", "R3.7", DIR, "        self._ignore.set_line(final_line, True)\n",
@@ -952,20 +780,19 @@ VARIANTS = [
     _v("trailing-ignore-starts-range", "R3.7", DIR, "        self._ignore.set_line(line, True)\n",
        "        self._ignore.set_line(line, True)\n        self._ignore.start_range(line, True)\n"),
     # benign twins
-    {"name": "twin-rename-lines-local", "rule": "R3.1", "expect": "silent", "edits": [
+    _vs("twin-rename-lines-local", "R3.1", "silent",
         (DIR, "lines = self._disables[error_name]", "lineset = self._disables[error_name]"),
         (DIR, "lines.start_range(line, disable)", "lineset.start_range(line, disable)"),
-        (DIR, "lines.set_line(line, disable)", "lineset.set_line(line, disable)"),
-        (DIR, "lines.set_line(final_line, disable)", "lineset.set_line(final_line, disable)")]},
-    {"name": "twin-rename-final_line", "rule": "R3.7", "expect": "silent", "edits": [
+        (DIR, "lines.set_line(line, disable)", "lineset.set_line(line=line, membership=disable)"),
+        (DIR, "lines.set_line(final_line, disable)", "lineset.set_line(final_line, disable)")),
+    _vs("twin-rename-final_line", "R3.7", "silent",
         (DIR, "    final_line = line_range.start_line\n", "    first = line_range.start_line\n"),
         (DIR, "self._ignore.set_line(final_line, True)", "self._ignore.set_line(first, True)"),
         (DIR, "if final_line in self._variable_annotations", "if first in self._variable_annotations"),
-        (DIR, "add_type_comment(final_line, data)", "add_type_comment(first, data)")]},
-    _v("twin-own-line-test-flipped", "R3.1", DIR,
-       "          if final_line != line:\n", "          if not line == final_line:\n", "silent"),
-    _v("twin-filter-truthiness", "R3.2", ERR, "if self._filter is None or self._filter(error):",
-       "if not self._filter or self._filter(error):", "silent"),
+        (DIR, "add_type_comment(final_line, data)", "add_type_comment(first, data)")),
+    _v("twin-own-line-test-flipped", "R3.1", DIR, "          if final_line != line:\n",
+       "          if not line == final_line:\n", "silent"),
+    _v("twin-filter-truthiness", "R3.2", ERR, _FILT, "if not self._filter or self._filter(error):", "silent"),
     _v("twin-de-morgan", "R3.3", DIR,
        "    return (\n        line not in self._ignore\n        and line not in self._disables[_ALL_ERRORS]\n"
        "        and line not in self._disables[error.name]\n    )",
@@ -973,8 +800,7 @@ VARIANTS = [
        "        or line in self._disables[_ALL_ERRORS]\n    )", "silent"),
     _v("twin-is-none-else", "R3.4", DIR, "    if specific is not None:\n      return specific\n",
        "    if specific is None:\n      pass\n    else:\n      return specific\n", "silent"),
-    _v("twin-seed-dict-comprehension", "R3.5", PAR,
-       "collections.OrderedDict(\n        (LineRange(lineno, lineno), list(structured_comments))\n"
+    _v("twin-seed-dict-comprehension", "R3.5", PAR, "collections.OrderedDict(\n        " + _SEED + "\n"
        "        for lineno, structured_comments in raw_structured_comments.items()\n    )",
        "collections.OrderedDict({\n        LineRange(n, n): list(cs)\n"
        "        for n, cs in raw_structured_comments.items()\n    })", "silent"),
